@@ -515,8 +515,10 @@ def check_field(ctx, cfg, seed, fd, cs, info, res, fi, L):
                 ops = [o for o in opened[:-1] if len(o[1]) == 1]
                 if ops:
                     c = ops[-1][1][0]
-                    rb = orc.bits_of((c ^ a) & ((1 << l) - 1), l)
-                    L.add(f'{pre}tobits {mf} {ue(a)} {",".join(map(str, rb))}', f'{c}|' + ';'.join(map(str, r)), (cfg, fd))
+                    # the mask covers every coefficient of the (possibly lifted) field, l bits are returned (repo fix ccbb4b9)
+                    lr = max(l, (c ^ a).bit_length())
+                    rb = orc.bits_of(c ^ a, lr)
+                    L.add(f'{pre}tobits {mf} {ue(a)} {",".join(map(str, rb))} {l}', f'{c}|' + ';'.join(map(str, r)), (cfg, fd))
             else:
                 L.add(f'tobitsp {fd[1]} 0 {a} {l}', ','.join(map(str, r)), (cfg, fd))
 
